@@ -231,6 +231,8 @@ def run_fine_case(case: Dict[str, Any]) -> Dict[str, Any]:
     shim_thr.Thread.is_alive = is_alive
     old = (dcm.threading, dcm.time, dsm.__dict__.get("open"), qlm.tempfile, qlm.shutil)
     dcm.threading, dcm.time = shim_thr, shim_time
+    from .rebind import rebind              # the same stand-ins under any import style of the data-logger files
+    rebind(dcm, {"threading": shim_thr, "time": shim_time})
 
     def gopen(path, mode="r", *a, **k):
         ctl.io("open")
@@ -238,6 +240,7 @@ def run_fine_case(case: Dict[str, Any]) -> Dict[str, Any]:
 
     dsm.open = gopen
     qlm.tempfile, qlm.shutil = _ShimTempfile(ctl), _ShimShutil(ctl)
+    rebind(qlm, {"tempfile": qlm.tempfile, "shutil": qlm.shutil})
     base = tempfile.mkdtemp(prefix="pyrtma_verif_dlfine_")
     wc = D.WarnCounter()
     root_logger = logging.getLogger("data_logger")
@@ -378,11 +381,13 @@ def run_fine_case(case: Dict[str, Any]) -> Dict[str, Any]:
                 dc._dead = True
         root_logger.removeHandler(wc)
         dcm.threading, dcm.time = old[0], old[1]
+        rebind(dcm, {"threading": old[0], "time": old[1]})
         if old[2] is None:
             dsm.__dict__.pop("open", None)
         else:
             dsm.open = old[2]
         qlm.tempfile, qlm.shutil = old[3], old[4]
+        rebind(qlm, {"tempfile": old[3], "shutil": old[4]})
         shutil.rmtree(base, ignore_errors=True)
     return obs
 
